@@ -93,6 +93,10 @@ Proof.
     | apply (rwinv_from_empty d0); [apply user_roots_no_reward; exact Hur | exact HRE] | exact HC].
 Qed.
 
+Corollary IndexHist_rewards_to_dispatcher_reachable ut ops :
+  Wired (run_ops ops (empty_world ut)) -> RewardsToDispatcher (run_ops ops (empty_world ut)).
+Proof. apply IndexHist_WdInv_wired. apply IndexHist_WdInv_reachable. Qed.
+
 (** ** 3. the capstone *)
 
 (** what holds in the pre-dispatch world [w1] (hub handler, every withdrawal and the swap leg done) *)
@@ -347,6 +351,72 @@ Proof.
     set (t := (bank - rw_prev r) * D) in *. clearbody q m t. clear - Hm Hlt Htot. split; lia.
 Qed.
 
+(** ** the predicates of Props/C19h.v, unfolded *)
+Lemma IndexHist_def_IndexCfgNow : forall w, IndexCfgNow w <->
+  Wired w /\ RewardWired w /\
+  match w_disp w, w_reg w with
+  | Some d, Some g =>
+      dp_swap d = A_swap /\ dp_oracle d = A_oracle /\
+      dp_keeper d <> A_disp /\ dp_keeper d <> A_hub /\ dp_keeper d <> A_reward /\
+      rg_vals g <> [] /\ (forall v, In v (rg_vals g) -> is_val v = true)
+  | _, _ => False
+  end.
+Proof. intros w. unfold IndexCfgNow. tauto. Qed.
+
+Lemma IndexHist_def_IndexEnvNow : forall w sender, IndexEnvNow w sender <->
+  StubsOk (w_env w) /\ IndexE1 w /\ HubReady w sender /\
+  forall w1 dp, pre_dispatch w sender = Some w1 -> w_disp w = Some dp ->
+    bal (w_env w1) A_disp (dp_bd dp) <= LIM /\ bal (w_env w1) A_disp usei <= LIM /\
+    ~ Known_F2 (dp_rate dp) (bal (w_env w1) A_disp (dp_bd dp)) (bal (w_env w1) A_disp usei).
+Proof. intros w sender. unfold IndexEnvNow. tauto. Qed.
+
+Lemma IndexHist_def_pre_state : forall w h r dp g tb ts w1,
+  IndexHist_pre_state w h r dp g tb ts w1 <->
+  let e := w_env w in
+  let e1 := w_env w1 in
+  w_hub w1 = Some (set_h_state h (touch_lim (h_state h) (e_now e))) /\ w_reward w1 = Some r /\
+  w_disp w1 = Some dp /\ w_reg w1 = Some g /\ w_bsei w1 = Some tb /\ w_stsei w1 = Some ts /\
+  e_del e1 = e_del e /\ e_unb e1 = e_unb e /\ e_now e1 = e_now e /\
+  (forall v d, In v (del_vals e A_hub) -> In d DENOMS -> pending e1 A_hub v d = 0) /\
+  (forall a d, a <> A_disp -> a <> A_swap -> bal e1 a d = bal e a d).
+Proof. intros. unfold IndexHist_pre_state. split; intros H; exact H. Qed.
+
+Lemma IndexHist_def_end_state : forall w h r dp g tb ts w1 w',
+  IndexHist_end_state w h r dp g tb ts w1 w' <->
+  let e := w_env w in
+  let now := e_now e in
+  let bd := dp_bd dp in
+  let keeper := dp_keeper dp in
+  let e1 := w_env w1 in
+  let X_b := bal e1 A_disp bd in
+  let X_st := bal e1 A_disp usei in
+  let kb := X_b * dp_rate dp / D in
+  let ks := X_st * dp_rate dp / D in
+  let rb := X_st - ks in
+  let e' := w_env w' in
+  w_bsei w' = Some tb /\ w_stsei w' = Some ts /\ w_disp w' = Some dp /\ w_reg w' = Some g /\
+  w_reward w' = Some (index_updated r (bal e A_reward bd + (X_b - kb))) /\
+  (exists h', w_hub w' = Some h' /\
+     h_cfg h' = h_cfg h /\ h_params h' = h_params h /\ h_batch h' = h_batch h /\
+     h_wait h' = h_wait h /\ h_hist h' = h_hist h /\ h_oldwait h' = h_oldwait h /\
+     h_newowner h' = h_newowner h /\
+     (rb = 0 -> h_state h' = touch_lim (h_state h) now) /\
+     (rb <> 0 -> exists s1,
+        query_actual_state w A_hub h = Some s1 /\
+        h_state h' = mkHubState (hs_ber s1) (rate_of (hs_bst s1 + rb) (claims_st h ts))
+                                (hs_bb s1) (hs_bst s1 + rb) now
+                                (hs_phb (h_state h)) (hs_lut (h_state h)) (hs_lpb (h_state h)))) /\
+  bal e' A_disp bd = 0 /\ bal e' A_disp usei = 0 /\
+  (forall d, bal e' A_hub d = bal e A_hub d) /\
+  bal e' A_reward bd = bal e A_reward bd + (X_b - kb) /\
+  bal e' keeper bd = bal e1 keeper bd + kb /\ bal e' keeper usei = bal e1 keeper usei + ks /\
+  (forall a d, a <> A_disp -> a <> A_swap -> a <> keeper -> a <> A_reward -> bal e' a d = bal e a d) /\
+  delegated e' A_hub = delegated e A_hub + rb /\
+  (forall y, y <> A_hub -> delegated e' y = delegated e y) /\
+  (forall v d, In v (del_vals e A_hub) -> In d DENOMS -> pending e' A_hub v d = 0) /\
+  e_unb e' = e_unb e /\ e_now e' = now.
+Proof. intros. unfold IndexHist_end_state. split; intros H; exact H. Qed.
+
 (** ** 5. non-vacuity *)
 
 (** closed side conditions by computation *)
@@ -421,6 +491,7 @@ Proof.
     pose proof IndexHist_W_ok_pre as Hb. rewrite Hpre in Hb. cbn [option_map] in Hb.
     pose proof IndexHist_W_ok_disp as Hd. rewrite Ed in Hd. cbn [option_map] in Hd.
     inversion Hd as [[Hbd Hrate]]. rewrite Hbd in *. inversion Hb as [[Hx1 Hx2]].
+    rewrite Hx1, Hx2, Hrate.
     split; [ih_le|]. split; [ih_le|].
     intros [[_ [H|H]]|[_ H]]; vm_compute in H; discriminate H.
 Qed.
@@ -447,7 +518,7 @@ Proof.
   split; [exact HC|]. split; [exact HN|]. split; [exact (T1 HC HN)|].
   pose proof IndexHist_W_ok_disp as Hd.
   destruct (w_disp W_ok) as [dp|] eqn:Ed; [|discriminate Hd]. cbn [option_map] in Hd.
-  inversion Hd as [[Hbd Hrate]].
+  injection Hd as Hbd Hrate.
   destruct (T2 HC HN dp eq_refl) as (Z1 & Z2 & _). rewrite Hbd in Z1.
   split; [exact Z1|]. split; [exact Z2|]. exact (proj1 (T3 HC HN)).
 Qed.
@@ -485,12 +556,12 @@ Lemma IndexHist_w2_cfg : IndexCfgNow IndexHist_w2_lit.
 Proof. unfold IndexHist_w2_lit, IndexCfgNow. ih_cfg. Qed.
 
 Lemma IndexHist_w2_pre :
-  option_map (fun w1 => (bal (w_env w1) A_disp uusd <=? LIM, bal (w_env w1) A_disp usei <=? LIM,
-                         0 <? bal (w_env w1) A_disp uusd * (D / 20) / D,
-                         bal (w_env w1) A_disp uusd * (D / 20) / D <? bal (w_env w1) A_disp uusd,
-                         0 <? bal (w_env w1) A_disp usei * (D / 20) / D))
+  option_map (fun w1 => (bal (w_env w1) A_disp uusd <=? LIM) && (bal (w_env w1) A_disp usei <=? LIM) &&
+                        (0 <? bal (w_env w1) A_disp uusd * (D / 20) / D) &&
+                        (bal (w_env w1) A_disp uusd * (D / 20) / D <? bal (w_env w1) A_disp uusd) &&
+                        (0 <? bal (w_env w1) A_disp usei * (D / 20) / D))
              (pre_dispatch IndexHist_w2_lit updater)
-  = Some (true, true, true, true, true).
+  = Some true.
 Proof. vm_compute. reflexivity. Qed.
 
 Lemma IndexHist_w2_disp :
@@ -515,10 +586,14 @@ Proof.
   - intros w1 dp Hpre Ed.
     pose proof IndexHist_w2_pre as Hb. rewrite Hpre in Hb. cbn [option_map] in Hb.
     pose proof IndexHist_w2_disp as Hd. rewrite Ed in Hd. cbn [option_map] in Hd.
-    inversion Hd as [[Hbd Hrate]]. rewrite Hbd in *. inversion Hb as [[Hx1 Hx2 Hx3 Hx4 Hx5]].
+    injection Hd as Hbd Hrate. rewrite Hbd in *. injection Hb as Hb.
+    apply andb_true_iff in Hb. destruct Hb as [Hb Hx5].
+    apply andb_true_iff in Hb. destruct Hb as [Hb Hx4].
+    apply andb_true_iff in Hb. destruct Hb as [Hb Hx3].
+    apply andb_true_iff in Hb. destruct Hb as [Hx1 Hx2].
     apply N.leb_le in Hx1. apply N.leb_le in Hx2. apply N.ltb_lt in Hx3. apply N.ltb_lt in Hx4.
     apply N.ltb_lt in Hx5.
-    split; [exact Hx1|]. split; [exact Hx2|].
+    split; [exact Hx1|]. split; [exact Hx2|]. rewrite Hrate.
     intros [[_ [H|H]]|[_ H]]; lia.
 Qed.
 
